@@ -20,6 +20,7 @@ struct Ctx {
     keys: Keys,
     operator: Address,
     owner: Address,
+    retention: u64,
     cands: Vec<RawSet>,
     /// signer spec able to sign for candidate i (None for sets nobody can sign for)
     specs: Vec<Option<SetSpec>>,
@@ -100,9 +101,10 @@ struct Model {
 
 struct C03 {
     thorough: bool,
+    /// one configuration per retention setting
+    retentions: Vec<u64>,
 }
 
-const RETENTION: u64 = 1;
 
 impl C03 {
     fn init_lists(&self) -> Vec<Vec<usize>> {
@@ -125,7 +127,7 @@ impl C03 {
             ctx.operator.to_val(),
             to_val(env, &sbytes(&DOMAIN)),
             ctx.w.v(0u64),
-            ctx.w.v(RETENTION),
+            ctx.w.v(ctx.retention),
             to_val(env, &sets),
         ]
     }
@@ -140,16 +142,17 @@ impl Scenario for C03 {
         "C03"
     }
     fn n_configs(&self) -> usize {
-        1
+        self.retentions.len()
     }
-    fn config_label(&self, _: usize) -> String {
-        "factory + gateway seat, retention 1, delay 0".into()
+    fn config_label(&self, c: usize) -> String {
+        format!("factory + gateway seat, retention {}, delay 0", self.retentions[c])
     }
     fn world<'a>(&self, ctx: &'a Ctx) -> &'a World {
         &ctx.w
     }
 
-    fn build(&self, _c: usize) -> (Ctx, Model) {
+    fn build(&self, c: usize) -> (Ctx, Model) {
+        let retention = self.retentions[c];
         let w = World::new();
         let env = &w.env;
         let owner = env.register(Principal, ());
@@ -165,7 +168,7 @@ impl Scenario for C03 {
         w.wipe_contract(&gw);
         assert!(!w.has_instance(&gw));
         (
-            Ctx { w, gw, factory, keys, operator, owner, cands, specs },
+            Ctx { w, gw, factory, keys, operator, owner, retention, cands, specs },
             Model { advances: 0, deployed: false, installed: vec![] },
         )
     }
@@ -177,6 +180,8 @@ impl Scenario for C03 {
         let mut v = vec![];
         if m.advances < 1 {
             v.push(Act::Advance(20));
+            // ~64 days: longer than any TTL a contract extends to, shorter than the minimum persistent TTL
+            v.push(Act::Advance(1_100_000));
         }
         for cand in [A, B, C, I0, I1] {
             for src in [Src::Latest, Src::Older, Src::Outdated, Src::NeverInstalled, Src::LatestForOtherCandidate, Src::LatestUnderApproveCommand] {
@@ -316,7 +321,7 @@ impl Scenario for C03 {
                     (_, None) => false,
                     (_, Some(e)) => match byp {
                         Byp::No => e == n,
-                        Byp::Operator => ((n - e) as u64) <= RETENTION,
+                        Byp::Operator => ((n - e) as u64) <= ctx.retention,
                         Byp::NoAuth | Byp::OwnerAuth => false,
                     },
                 };
@@ -390,11 +395,11 @@ use soroban_sdk::TryFromVal;
 fn main() {
     main_for(|tier| {
         let thorough = tier == "thorough";
-        let s = C03 { thorough };
+        let s = C03 { thorough, retentions: if thorough { vec![1, 0, 2] } else { vec![1] } };
         let mut o = Opts::new(tier, if thorough { 9 } else { 7 });
         o.min_depth = 3;
         o.xcheck = tier == "thorough";
-        o.rule = "construction through a factory with initial lists [], [I0], [I0,I1], [I0,I0], [I0,I1,I0], [I0,I1,A], [A,A,B], [I0,malformed_i], [malformed_i] (8 malformed shapes: empty, adjacent duplicate key, descending keys, all-zero key, zero weight, weights summing past u128, threshold 0, threshold total+1); then all rotation sequences over candidates {A,B,C(threshold==total),I0,I1, 8 malformed} x proof source {latest, older retained, outdated, never-installed, latest-signing-another-candidate, latest-signing-under-the-approval-command-tag} x bypass {no, operator, no auth, owner auth}; after every new state epoch(), signers_hash_by_epoch(e) for all e in 0..=epoch+1 and epoch_by_signers_hash(h) for all 13 candidate hashes are compared with the installed list".into();
+        o.rule = "retention 1 (thorough: also 0 and 2); construction through a factory with initial lists [], [I0], [I0,I1], [I0,I0], [I0,I1,I0], [I0,I1,A], [A,A,B], [I0,malformed_i], [malformed_i] (8 malformed shapes: empty, adjacent duplicate key, descending keys, all-zero key, zero weight, weights summing past u128, threshold 0, threshold total+1); then all rotation sequences over candidates {A,B,C(threshold==total),I0,I1, 8 malformed} x proof source {latest, older retained, outdated, never-installed, latest-signing-another-candidate, latest-signing-under-the-approval-command-tag} x bypass {no, operator, no auth, owner auth}; after every new state epoch(), signers_hash_by_epoch(e) for all e in 0..=epoch+1 and epoch_by_signers_hash(h) for all 13 candidate hashes are compared with the installed list".into();
         (s, o)
     });
 }
